@@ -1,6 +1,6 @@
 SPECIFICATION SeededSpec
 CONSTANTS
-  MaxCommits = 10
+  MaxCommits = 11
   MaxOps = 5
   MaxActs = 3
   EmptyPolicies = {"keep", "all"}
